@@ -480,3 +480,65 @@ def ex_ret_state(ex, calls):
 
 
 UNITS.append(PushStep())
+
+
+# =========================================================================================== _async_step / async_step (C06)
+class NodeStepCounter:
+    """ghost counter on node.step"""
+
+    def __init__(self):
+        self.calls = []
+
+    def step(self, ex, ss):
+        self.calls.append(ss)
+        k = len(self.calls)
+        new = Rec("StepState", dict(rng=z3.Const(f"s_rng{k}", Leaf), state=z3.Const(f"s_state{k}", Leaf), params=z3.Const(f"s_params{k}", Leaf),
+                                     inputs=ss.f["inputs"], eps=z3.Int(f"s_eps{k}"), seq=z3.Int(f"s_seq{k}"), ts=z3.Real(f"s_ts{k}")), module="rex/base.py", frozen=True)
+        return (new if self.returns_state else None), z3.Const(f"s_out{k}", Leaf)
+
+
+class AsyncStepOnce(Unit):
+    """_AsyncNodeWrapper._async_step runs the node's step exactly once and returns that call's result; async_step bumps seq"""
+    props = ("C06", "C13", "C01")
+
+    def __init__(self, which):
+        self.which = which
+        self.name = which
+        self.target = aw.AS + "::_AsyncNodeWrapper." + which
+
+    def configs(self):
+        yield "state", dict(returns_state=True)
+        yield "no-state", dict(returns_state=False)
+
+    def run(self, ctx):
+        ex = ctx.ex
+        w, n, ins, outs = mk_node_world(ctx, dict(fanin=()))
+        ss = mk_step_state(ctx, "ss", [])
+        ctr = NodeStepCounter()
+        ctr.returns_state = ctx.cfg["returns_state"]
+        n.f["node"].f["step"] = ctr.step
+        if self.which == "_async_step":
+            # callee under its own contract (AsyncStepOnce('async_step')): one node.step, seq + 1
+            def async_step_summ(ex_, ss_):
+                st, out = ctr.step(ex_, ss_)
+                return (Rec("StepState", dict(st.f, seq=st.f["seq"] + 1), module="rex/base.py", frozen=True) if st is not None else None), out
+            n.f["async_step"] = async_step_summ
+        pre = ctx.snapshot(n)
+        ret = ctx.call(self_obj=n, args=[ss])
+        aw.frame_check(ctx, aw.reachable(pre), aw.reachable(n), [], label="empty frame")
+        ctx.ensure("C06 the user's step function is executed exactly once", z3.BoolVal(len(ctr.calls) == 1), props=("C06",))
+        ctx.ensure("C06 it is executed on the step state it was given", z3.BoolVal(len(ctr.calls) >= 1 and ctr.calls[0] is ss), props=("C06", "C13"))
+        ok = isinstance(ret, tuple) and len(ret) == 2
+        ctx.ensure("returns (state, output)", z3.BoolVal(ok))
+        if ok:
+            ctx.ensure("C06/C13 returns the output of that one call", aw.same(ret[1], z3.Const("s_out1", Leaf)), props=("C06", "C13"))
+            if ctx.cfg["returns_state"]:
+                st = ret[0]
+                ctx.ensure("C01 returned state = the step's state with seq + 1",
+                           z3.And(z3.BoolVal(isinstance(st, Rec)), st.f["seq"] == z3.Int("s_seq1") + 1, st.f["rng"] == z3.Const("s_rng1", Leaf), st.f["state"] == z3.Const("s_state1", Leaf),
+                                  st.f["params"] == z3.Const("s_params1", Leaf), st.f["ts"] == z3.Real("s_ts1"), st.f["eps"] == z3.Int("s_eps1")) if isinstance(st, Rec) else z3.BoolVal(False), props=("C01", "C06"))
+            else:
+                ctx.ensure("no state returned => None passed through", z3.BoolVal(ret[0] is None))
+
+
+UNITS += [AsyncStepOnce("_async_step"), AsyncStepOnce("async_step")]
